@@ -145,6 +145,30 @@ def Op.loopOp : Op → Bool
   | .init .. => false
   | .reset _ => false
 
+/-- What a helper does to the stream after using the generator directly (`dist.rng.…`), which does not auto-advance:
+    the code regenerated into `Gen.Stream.directSites` (1 = plain `jump()`, 2 = `reset()`, anything else = nothing modelled). -/
+inductive Followup where
+  | jump | reset | nothing
+  deriving DecidableEq, Repr
+
+def Followup.ofCode : Nat → Followup
+  | 1 => .jump
+  | 2 => .reset
+  | _ => .nothing
+
+def Followup.ops : Followup → List Op
+  | .jump => [.jump none Gen.jumpDefaultDelta false]
+  | .reset => [.reset 0]
+  | .nothing => []
+
+/-- A helper of that shape called once per entry of `sizes` (any number of times between two timestep jumps). -/
+def helperCalls (f : Followup) (sizes : List Nat) : List Op :=
+  sizes.flatMap (fun n => Op.direct n :: f.ops)
+
+/-- The life of one distribution in one simulation: the (forced) initialisation of `Sim.init_dists`, then `ops`. -/
+def life (d : Dist) (offset : Nat) (seed : Option Nat) (ops : List Op) : Dist × List Pos :=
+  run (step d (.init offset seed true)).1 ops
+
 /-- Lexicographic order on positions by `(ind, number of draws since the jump)`. -/
 def Pos.lt (p q : Pos) : Prop := p.ind < q.ind ∨ (p.ind = q.ind ∧ p.draws.length < q.draws.length)
 
